@@ -56,6 +56,14 @@ compares what the real code printed with the model, textually):
    error responses (every response theorem has the form "if ok then …" or "… ⇒ error").
  * serde's deserialisation of the format parameter is modelled from its documented externally-tagged rule and
    checked differentially (`fmtParam`).
+ * Payloads that are not finite: `serde_json` prints a NaN or infinite cost / state variable as `null`
+   (`renderF64`, `rendered_record`); modelled from its rule and checked differentially.  Coordinates that are not
+   finite cannot come from a table file since the repair of `parse_wkt_linestring`; for a table handed over in
+   memory only the WKB text is modelled (`widenF32` quiets a signalling NaN as the conversion does), the WKT text
+   (`NaN`, `inf`) and the GeoJSON `null` coordinate are not.
+ * A lookup file that exists but does not open (no read permission) is distinguished from a missing one
+   (`TableFile.isFile` vs `readable`, `build_traversal_file_errors`); exercised by calling the real builders as
+   uid 65534 on a mode-000 file.
 
 No defect of the code against the literal statement of C20 was found, so there is no `_counterexample` theorem.
 Two behaviours turn a whole response into an error response although nothing is wrong with the route or tree;
@@ -146,6 +154,26 @@ theorem formats_agree_on_edge_sequence (g g' : Geoms) (f1 f2 : Fmt) (r : List Ed
 theorem id_formats_ignore_geometry (g g' : Geoms) (f : Fmt) (r : List EdgeTraversal) (hf : usesGeometry f = false) :
     generateRouteOutput g f r = generateRouteOutput g' f r ∧ ∃ o, generateRouteOutput g f r = .ok o := by
   cases f <;> simp [usesGeometry] at hf <;> exact ⟨rfl, _, rfl⟩
+
+/-- how a record appears (json records, GeoJSON properties): the edge id and the number of state variables always;
+a cost or state variable bit for bit exactly when it is finite, otherwise as `null` — so a route with a NaN or
+infinite cost still shows its edge sequence in every format, only that payload is blanked (modelled from
+`serde_json`'s rule, checked differentially with ±inf, NaNs, −0.0, subnormals) -/
+theorem rendered_record (t : EdgeTraversal) :
+    t.rendered.edge = t.edge ∧ t.rendered.state.length = t.state.length ∧
+    (∀ bits b, renderF64 bits = some b ↔ (b = bits ∧ f64IsFinite bits = true)) ∧
+    (∀ bits, renderF64 bits = none ↔ f64IsFinite bits = false) := by
+  refine ⟨rfl, by simp [EdgeTraversal.rendered], ?_, ?_⟩
+  · intro bits b
+    unfold renderF64
+    cases h : f64IsFinite bits <;> simp [eq_comm]
+  · intro bits
+    unfold renderF64
+    cases h : f64IsFinite bits <;> simp
+
+-- +inf, a NaN and −0.0: the first two are blanked, the negative zero is kept
+example : (EdgeTraversal.rendered ⟨7, 0x7FF0000000000000, 0x7FF8000000000000, [0x8000000000000000]⟩) =
+    { edge := 7, access := none, traversal := none, state := [some 0x8000000000000000] } := by decide
 
 example : ∃ g r s, generateRouteOutput g .geoJson r = .ok s ∧ s.edgeSeq? = some [1, 0, 1] :=
   ⟨tableOf [[⟨1, 2⟩, ⟨3, 4⟩], [⟨5, 6⟩, ⟨7, 8⟩, ⟨9, 10⟩]],
@@ -1308,7 +1336,8 @@ example : (fmtParam (some (.str "WKT"))).toOption = none := by decide
 then is exactly the plugin `from_file` gives for those formats (so `traversal_from_file_table` applies) -/
 theorem build_traversal_ok (file : FileParam GeomRow) (route tree : Option Json) (cfg : TraversalCfg)
     (h : buildTraversal file route tree = .ok cfg) :
-    ∃ f, file = .file f ∧ f.readable = true ∧ fmtParam route = .ok cfg.route ∧ fmtParam tree = .ok cfg.tree ∧
+    ∃ f, file = .file f ∧ f.isFile = true ∧ f.readable = true ∧ fmtParam route = .ok cfg.route ∧
+      fmtParam tree = .ok cfg.tree ∧
       traversalFromFile f cfg.route cfg.tree = .ok cfg := by
   unfold buildTraversal at h
   cases file with
@@ -1317,10 +1346,10 @@ theorem build_traversal_ok (file : FileParam GeomRow) (route tree : Option Json)
   | noSuchFile => simp [filePath] at h
   | file f =>
     simp only [filePath] at h
-    cases hr : f.readable with
-    | false => simp [hr] at h
+    cases hf : f.isFile with
+    | false => simp [hf] at h
     | true =>
-      simp only [hr, if_true] at h
+      simp only [hf, if_true] at h
       cases h1 : fmtParam route with
       | error e => simp [h1] at h
       | ok r =>
@@ -1336,10 +1365,30 @@ theorem build_traversal_ok (file : FileParam GeomRow) (route tree : Option Json)
             injection h with h
             subst h
             obtain ⟨a, b, _⟩ := traversal_from_file_table f r t c h3
-            refine ⟨f, rfl, hr, ?_, ?_, ?_⟩
+            have hr : f.readable = true := by
+              unfold traversalFromFile at h3
+              cases hl : readLinestringTextFile f with
+              | error x => simp [hl] at h3
+              | ok ls => exact ((geometry_file_loads_all_rows_or_fails f ls).1 hl).1
+            refine ⟨f, rfl, hf, hr, ?_, ?_, ?_⟩
             · rw [a]
             · rw [b]
             · rw [a, b]; exact h3
+
+/-- the two ways a lookup file can be unusable reach different error arms: a path that is not a file is
+`FileNotFoundForComponent` (before the format parameters are even looked at); a file that exists but does not
+open (no read permission), is cut off or holds a rejected row is a `PluginError` wrapping the loader's
+`BuildFailed` (after the format parameters have been accepted) -/
+theorem build_traversal_file_errors (f : TableFile GeomRow) (route tree : Option Json) :
+    (f.isFile = false → buildTraversal (.file f) route tree = .error .fileNotFound) ∧
+    (f.isFile = true → (f.readable = false ∨ f.intact = false ∨ none ∈ f.rows) →
+      ∀ r t, fmtParam route = .ok r → fmtParam tree = .ok t →
+        buildTraversal (.file f) route tree = .error .plugin) := by
+  constructor
+  · intro h; simp [buildTraversal, filePath, h]
+  · intro h hbad r t hr ht
+    have := (geometry_file_bad_row_is_error f r t hbad).2
+    simp [buildTraversal, filePath, h, hr, ht, this]
 
 theorem build_uuid_ok (file : FileParam String) (u : Uuids) (h : buildUuid file = .ok u) :
     ∃ f, file = .file f ∧ ∀ i, u i = f.rows[i]? := by
@@ -1350,7 +1399,7 @@ theorem build_uuid_ok (file : FileParam String) (u : Uuids) (h : buildUuid file 
   | noSuchFile => simp [filePath] at h
   | file f =>
     simp only [filePath] at h
-    cases hr : f.readable with
+    cases hr : f.isFile with
     | false => simp [hr] at h
     | true =>
       simp only [hr, if_true] at h
@@ -1367,6 +1416,11 @@ example : ((buildTraversal (.file { readable := true, intact := true, rows := [s
   decide
 example : (buildTraversal (.file { readable := true, intact := true, rows := [some [⟨1, 2⟩]] })
     (some .null) none).toOption.isNone = true := by decide
+-- exists, but no read permission: the loader's failure, not "file not found"
+example : (match buildTraversal (.file { readable := false, isFile := true, intact := true, rows := [some [⟨1, 2⟩]] })
+    (some (.str "wkt")) none with | .error .plugin => true | _ => false) = true := by decide
+example : (match buildUuid (.file { readable := false, isFile := true, intact := true, rows := ["a"] })
+    with | .error .plugin => true | _ => false) = true := by decide
 
 /-! ### 9. the plugins called directly on a JSON output -/
 
